@@ -773,11 +773,58 @@ def rule_r6(chk, p, t):
         "the cumulative loop bound is count < month; the day fraction uses /24, /1440, /86400",
     )
     GREG = [31, 28, 31, 30, 31, 30, 31, 31, 30, 31, 30, 31]
+
+    def cumulative_idiom(fn):
+        """dayOfYear written with a table of days preceding each month plus a leap-day increment."""
+        from rsa.cfg import cfg_of
+
+        table = None
+        tname = None
+        for n in walk_no_nested(fn.node):
+            if isinstance(n, ast.Subscript) and isinstance(n.value, ast.Name):
+                v = fn.module.assigns.get(n.value.id)
+                if v is None:
+                    for a in walk_no_nested(fn.node):
+                        if isinstance(a, ast.Assign) and isinstance(a.targets[0], ast.Name) and a.targets[0].id == n.value.id:
+                            v = a.value
+                if isinstance(v, (ast.Tuple, ast.List)) and len(v.elts) == 12 and all(isinstance(e, ast.Constant) for e in v.elts):
+                    table, tname, idx = [e.value for e in v.elts], n.value.id, n.slice
+        require(table is not None, "no month-length or days-before-month table recognised", fn.node)
+        prefix = [sum(GREG[:i]) for i in range(12)]
+        bad = []
+        if table != prefix:
+            bad.append(f"days-before-month table {table} (expected {prefix})")
+        itxt = unparse(idx)
+        if itxt not in ("month - 1", "min(month, 12) - 1", "int(month) - 1"):
+            bad.append(f"table indexed by `{itxt}` (expected month - 1)")
+        cfg = cfg_of(fn)
+        incs = [n for n in cfg.nodes if n.kind == "stmt" and isinstance(n.ast, ast.AugAssign) and isinstance(n.ast.op, ast.Add) and unparse(n.ast.value) == "1"]
+        if len(incs) != 1:
+            bad.append(f"{len(incs)} leap-day increments")
+        else:
+            conds = [(unparse(cfg.nodes[cid].ast), lab) for cid, lab in cfg.control_conditions(incs[0].id) if cfg.nodes[cid].kind == "cond"]
+            month_ok = any((txt in ("month > 2", "month >= 3", "2 < month", "3 <= month") and lab is True) or (txt in ("month <= 2", "month < 3") and lab is False) for txt, lab in conds)
+            leap_ok = any(("isleap(year)" in txt and lab is True) or ("remainder(year, 4) == 0" in txt and lab is True) or ("year % 4 == 0" in txt and lab is True) for txt, lab in conds)
+            if not month_ok:
+                bad.append(f"the leap day is added under {conds}: it must count only from March on (month > 2), otherwise every February date of a leap year is a day late")
+            if not leap_ok:
+                bad.append("the leap day is not conditional on a leap year")
+        ret = [n for n in walk_no_nested(fn.node) if isinstance(n, ast.Return)][0].value
+        want = canon(ast.parse("days + day + hour / 24 + minute / 1440 + second / 86400", mode="eval").body)
+        if canon(ret) != want:
+            bad.append(f"day fraction `{unparse(ret)}`")
+        if bad:
+            r.violation(fn.qualname, "calendar:" + ";".join(bad), f"{fn.name}: " + "; ".join(bad), fn.loc())
+        else:
+            r.ok(fn.qualname, f"days-before-month table `{tname}` + leap day from March on", fn.loc())
+
     for q in ("resonaate.physics.time.conversions.dayOfYear", "resonaate.physics.time.stardate.days2mdh"):
         fn = p.func(q)
 
         def one(fn=fn):
             lits = [n for n in walk_no_nested(fn.node) if isinstance(n, ast.Assign) and isinstance(n.value, ast.List) and len(n.value.elts) == 12]
+            if not lits and fn.name == "dayOfYear":
+                return cumulative_idiom(fn)
             require(len(lits) == 1, "no 12-element month table", fn.node)
             vals = [getattr(e, "value", None) for e in lits[0].value.elts]
             name = lits[0].targets[0].id
